@@ -111,6 +111,11 @@ func vfC19HeldSearch(t *testing.T, r *vfRand, trial int) {
 	}
 	done := make(chan outcome, 1)
 	go func() {
+		defer func() {
+			if e := recover(); e != nil { // e.g. a nil / stale entry in a list that was rewritten under the search
+				done <- outcome{nil, fmt.Errorf("panic in the search goroutine: %v", e)}
+			}
+		}()
 		q := &query.Substring{Pattern: "needle"}
 		if stream {
 			c := &vfC19Collect{}
